@@ -2,10 +2,23 @@
 from lib import *
 import copy as _copy
 
+TINY = [Fraction(1, 2**27), Fraction(1, 2**30), Fraction(1, 2**40), Fraction(3, 2**35)]
+
+def tinyfy(rng, t, p=0.3):
+    """replace some of the present branch lengths by tiny dyadic ones (exact in binary64: the model's rationals still agree exactly)"""
+    import copy as _c
+    t = _c.deepcopy(t)
+    for x in preorder(t):
+        for e, _ch in kids(x):
+            if e["len"] is not None and rng.random() < p:
+                e["len"] = rng.choice(TINY)
+    return t
+
 PROP = "C15"
 LEVEL = "proof"
 RULE = ("random multifurcating trees (3..14 tips, 20 in thorough; rooted/unrooted; parent slot at random positions; lengths "
-        "all/mixed/none with zeros; supports; named inner nodes; node and branch comments) x "
+        "all/mixed/none with zeros and, in 30% of the trees, tiny dyadic lengths 2^-27 2^-30 2^-40 3*2^-35 (in half of the insert cases on "
+        "the branches of the model tips); supports; named inner nodes; node and branch comments) x "
         "clone x 12 edits (rename, length, support, comment, clear all / branch / node comments then add new ones, every mutable field "
         "of every node and branch, writes through the existing comment slices, removetip, reroot, graft, ReinitIndexes alone, ShuffleTips, "
         "swap of two tip names + ReinitIndexes, reroot + ReinitIndexes) applied to the copy then, on a "
@@ -66,6 +79,10 @@ def enrich_comments(rng, t):
     return t
 
 def rand_tree(g, rng, tier, prefix="t", lo=3, hi=None, rooted=None, comments=None, inner_names=None, ntips=None):
+    t = rand_tree0(g, rng, tier, prefix, lo, hi, rooted, comments, inner_names, ntips)
+    return tinyfy(rng, t) if rng.random() < 0.3 else t
+
+def rand_tree0(g, rng, tier, prefix="t", lo=3, hi=None, rooted=None, comments=None, inner_names=None, ntips=None):
     hi = hi or (14 if tier != "thorough" else 20)
     return g.tree(ntips=ntips, lo=lo, hi=hi, maxdeg=5, prefix=prefix, rooted=rooted,
                   lenmode=rng.choice(["all", "all", "mixed", "mixed", "none"]),
@@ -204,6 +221,13 @@ def gen(rng, tier):
         tips = leaves(t)
         k = rng.randint(1, min(4, len(tips)))
         olds = rng.sample(tips, k)
+        if rng.random() < 0.5:
+            # the model tips sit on tiny (non-zero) branches: the minimum lengths tree builders print
+            t = _copy.deepcopy(t)
+            for x in preorder(t):
+                for e, c in kids(x):
+                    if not kids(c) and c["name"] in olds and rng.random() < 0.7:
+                        e["len"] = rng.choice(TINY)
         groups = []
         cnt = 0
         for o in olds:
